@@ -8,10 +8,15 @@ EXTENDS MC_Cache, Json
 VARIABLE hist
 gvars == <<vars, hist>>
 GInit == Init /\ hist = <<>>
-GNext == Next /\ hist' = Append(hist, [e |-> resp'.e, res |-> resp'.res])
+\* sequences are enumerated without group-by lists; each step carries the answer for every list of GBList and the
+\* harness rotates through them
+GNext == /\ nq < MaxQ
+         /\ \E e \in QSet : LET x == ExecC(F, e, <<>>, c) IN
+              /\ c' = x.c /\ resp' = [e |-> e, gb |-> <<>>, res |-> x.res] /\ nq' = nq + 1
+              /\ hist' = Append(hist, [e |-> e, res |-> x.res, by |-> [g \in DOMAIN GBList |-> ExecSpec(Rows, e, GBList[g])]])
 GSpec == GInit /\ [][GNext]_gvars
 PairLT(a, b) == a[1] < b[1]
 RowPairs(r) == SetToSortSeq({<<cc, r[cc]>> : cc \in DOMAIN r}, PairLT)
-EmitSetup == hist = <<>> => PrintT(ToJson([tag |-> "setup", rows |-> [i \in DOMAIN Rows |-> RowPairs(Rows[i])]]))
+EmitSetup == hist = <<>> => PrintT(ToJson([tag |-> "setup", gbs |-> GBList, rows |-> [i \in DOMAIN Rows |-> RowPairs(Rows[i])]]))
 EmitHist == Len(hist) = MaxQ => PrintT(ToJson([tag |-> "seq", steps |-> hist]))
 =============================================================================
